@@ -2,6 +2,16 @@
 //! Case format and machinery: see c07.rs. For every key list the number W of write calls (checksum
 //! write included) is measured against the recording sink; then the fault is injected at every
 //! index 0..W-1 (index 0 and 1 fail inside the constructor), and into the final flush.
+//!
+//! Family `cont` (a caller that keeps going after an error; deterministic, independent of the seed):
+//!   cont \t frontend \t keys \t k=<index>/<W> \t at=<call>:<j>of<m> \t <fault>
+//! One TRANSIENT fault (fother = Err(Other), z = Ok(0)) at write call k, everything else accepted.
+//! The caller ignores the error, issues the remaining add/insert calls and into_inner()/finish(),
+//! each under catch_unwind. `at` says which write of which API call the fault hits in the in-memory
+//! schedule (new | i<n> = n-th key | fin; j-th of m write_all chunks; for fin the checksum write is
+//! the last one). S = finished=no | finished=yes | finished=yes-but-incomplete; the specification
+//! says finished=no whenever the fault was consumed (k < W). The builder state after an error is
+//! not modelled (the chunks emitted afterwards depend on it): M is `na` for this family.
 use crate::c07::*;
 use crate::common::*;
 use std::io::ErrorKind;
@@ -34,6 +44,110 @@ fn expected_kind(c: &Case) -> Option<ErrorKind> {
     }
 }
 
+/// which write of which API call is write call number k of the in-memory build
+fn locate(r: &Reference, k: usize) -> String {
+    let mut i = 0;
+    let n = r.calls.len();
+    for (ci, c) in r.calls.iter().enumerate() {
+        let m = if ci == n - 1 { c.len() + 1 } else { c.len() };
+        if k < i + m {
+            let name = if ci == 0 {
+                "new".to_string()
+            } else if ci == n - 1 {
+                "fin".to_string()
+            } else {
+                format!("i{}", ci)
+            };
+            return format!("{}:{}of{}", name, k - i + 1, m);
+        }
+        i += m;
+    }
+    "beyond".to_string()
+}
+
+/// the `cont` family: fixed key lists, every write index, {Err(Other), Ok(0)}
+fn cont_cases(stats: &mut Stats) -> Vec<String> {
+    let mut drng = Rng::new(0xC11C0);
+    let mut lists = small_key_lists(&mut drng);
+    lists.truncate(56);
+    for _ in 0..4 {
+        lists.push(random_key_list(&mut drng));
+    }
+    let mut cases = vec![];
+    for (i, kvs) in lists.into_iter().enumerate() {
+        // the historical witness (index 4) runs through MapBuilder + into_inner
+        let kind = if i == 4 { "map" } else { BUILDER_KINDS[i % BUILDER_KINDS.len()] };
+        let r = reference(kind, &kvs);
+        let calls = calls_string(&r.calls);
+        for k in 0..r.w {
+            for f in [Resp::Fail(ErrorKind::Other), Resp::Zero] {
+                stats.bump("cont_keep_going_after_error");
+                cases.push(format!(
+                    "cont\t{}\t{}\tk={}/{}\tat={}\t{}",
+                    kind,
+                    keys_string(&kvs),
+                    k,
+                    r.w,
+                    locate(&r, k),
+                    script_string(&[f])
+                ));
+                // the same fault for a caller that stops at the first error (fully modelled)
+                let mut s = vec![Resp::Accept(ALL); k];
+                s.push(f);
+                stats.bump("cont_first_error_only");
+                cases.push(case_line(kind, &kvs, &[], None, &s, FlushResp::Ok, &calls));
+            }
+        }
+    }
+    cases
+}
+
+fn execute_cont(case: &str) -> String {
+    let f: Vec<&str> = case.split('\t').collect();
+    let kind = f[1];
+    let kvs = parse_keys(f[2]);
+    let kw: Vec<usize> = f[3][2..].split('/').map(|x| x.parse().unwrap()).collect();
+    let (k, w) = (kw[0], kw[1]);
+    let fault = parse_script(f[5]);
+    let r = reference(kind, &kvs);
+    let mut x = String::from("ok");
+    if r.w != w || locate(&r, k) != f[4][3..] {
+        x = "W / position in the case line are not those of the in-memory build".to_string();
+    }
+    let mut script = vec![Resp::Accept(ALL); k];
+    script.extend(fault);
+    let mut sink = ScriptSink::new(script, FlushResp::Ok, &[]);
+    let log = run_session_continue(kind, &mut sink, &kvs);
+    let consumed = sink.pos > k;
+    let complete = sink.data == r.bytes && sink.flushes >= 1;
+    let s = match log.fin.as_deref() {
+        Some("ok") => {
+            if complete {
+                "finished=yes"
+            } else {
+                "finished=yes-but-incomplete"
+            }
+        }
+        _ => "finished=no",
+    };
+    let opens = match std::panic::catch_unwind(|| fst::raw::Fst::new(sink.data.clone()).map(|f| f.verify().is_ok())) {
+        Ok(Ok(v)) => format!("opens,verify={}", v),
+        Ok(Err(_)) => "does-not-open".to_string(),
+        Err(_) => "open-panics".to_string(),
+    };
+    format!(
+        "S:{}\tM:na\tX:{}\tD:consumed={} calls={} fin={} sink={}/{} {}",
+        s,
+        x,
+        consumed,
+        log.calls.join(","),
+        log.fin.unwrap_or_else(|| "none".to_string()),
+        sink.data.len(),
+        r.bytes.len(),
+        opens
+    )
+}
+
 impl Prop for P {
     fn generate(&self, tier: Tier, rng: &mut Rng, stats: &mut Stats) -> Vec<String> {
         let nlists = match tier {
@@ -45,7 +159,7 @@ impl Prop for P {
         while lists.len() < nlists {
             lists.push(random_key_list(rng));
         }
-        let mut cases = vec![];
+        let mut cases = cont_cases(stats);
         for (i, mut kvs) in lists.into_iter().enumerate() {
             let kind = BUILDER_KINDS[i % BUILDER_KINDS.len()];
             maybe_repeat(kind, &mut kvs, rng);
@@ -105,10 +219,16 @@ impl Prop for P {
 
     fn nontrivial(&self, case: &str) -> bool {
         let f: Vec<&str> = case.split('\t').collect();
+        if f[0] == "cont" {
+            return f.len() == 6 && f[2] != "-";
+        }
         f.len() == 7 && (f[4].contains('f') || f[4].contains('z') || f[5] != "ok")
     }
 
     fn execute(&self, case: &str) -> String {
+        if case.starts_with("cont\t") {
+            return execute_cont(case);
+        }
         let c = Case::parse(case);
         let r = reference(&c.kind, &c.kvs);
         let mut x = String::from("ok");
